@@ -370,6 +370,98 @@ def n9_step_by(text, fired):
     return n9_step_by(text[:mm.start()] + new + text[close_i + 1:], fired)
 
 
+def n25_select(text, fired):
+    """N25: tokio::select! { PAT = FUT => BODY, ... }  ->
+         match vx_select(k) { 0 => { let vx_ev = FUT; match vx_ev { PAT => BODY, _ => {} } } ... _ => { last branch } }
+    One branch is chosen (vx_select: any value below k), its future is run to completion (N3), and the handler runs if the
+    pattern matches (tokio: a branch whose pattern does not match is disabled and the macro keeps waiting -- here the enclosing
+    loop comes round again).  Dropped: WHICH branch is ready first (time), and the cancellation of the other futures."""
+    m = mask(text)
+    mm = re.search(r'(?<![A-Za-z0-9_])tokio::select!\s*\{', m)
+    if not mm:
+        return text
+    open_i = mm.end() - 1
+    close_i = match_close(m, open_i)
+    inner = text[open_i + 1:close_i]
+    im = mask(inner)
+    branches = []
+    i = 0
+    n = len(im)
+    while i < n:
+        while i < n and im[i] in ' \t\n,':
+            i += 1
+        if i >= n:
+            break
+        # PAT up to the first top-level `=` that is not part of `==`, `=>`, `<=`, `>=`, `!=`
+        depth, j = 0, i
+        while j < n:
+            c = im[j]
+            if c in '([{':
+                depth += 1
+            elif c in ')]}':
+                depth -= 1
+            elif c == '=' and depth == 0 and im[j + 1] not in '=>' and im[j - 1] not in '=!<>':
+                break
+            j += 1
+        if j >= n:
+            raise GenError('N25: select! branch without `=`')
+        pat = inner[i:j].strip()
+        # FUT up to top-level `=>`
+        depth, k = 0, j + 1
+        while k < n:
+            c = im[k]
+            if c in '([{':
+                depth += 1
+            elif c in ')]}':
+                depth -= 1
+            elif c == '=' and depth == 0 and im[k + 1] == '>':
+                break
+            k += 1
+        if k >= n:
+            raise GenError('N25: select! branch without `=>`')
+        fut = inner[j + 1:k].strip()
+        # BODY: a block, or an expression up to the next top-level comma
+        b = k + 2
+        while b < n and im[b] in ' \t\n':
+            b += 1
+        if b < n and im[b] == '{':
+            e = match_close(im, b)
+            body = inner[b:e + 1]
+            i = e + 1
+        else:
+            depth, e = 0, b
+            while e < n:
+                c = im[e]
+                if c in '([{':
+                    depth += 1
+                elif c in ')]}':
+                    depth -= 1
+                elif c == ',' and depth == 0:
+                    break
+                e += 1
+            body = inner[b:e].strip()
+            i = e + 1
+        branches.append((pat, fut, body))
+    if not branches:
+        raise GenError('N25: empty select!')
+    indent = re.match(r'[ \t]*', text[text.rfind('\n', 0, mm.start()) + 1:]).group(0)
+    arms = []
+    for idx, (pat, fut, body) in enumerate(branches):
+        sel = '_' if idx == len(branches) - 1 else str(idx)
+        i2 = indent + '        '
+        if pat == '_':
+            arm = '%s    %s => {\n%slet vx_ev = %s;\n%s%s\n%s    }' % (indent, sel, i2, fut, i2, body if body.startswith('{') else body + ';', indent)
+        elif re.match(r'^(mut\s+)?[a-z_][a-z0-9_]*$', pat):
+            # an irrefutable binding: the branch always runs its handler
+            arm = '%s    %s => {\n%slet vx_ev = %s;\n%slet %s = vx_ev;\n%s%s\n%s    }' % (indent, sel, i2, fut, i2, pat, i2, body if body.startswith('{') else body + ';', indent)
+        else:
+            arm = '%s    %s => {\n%slet vx_ev = %s;\n%smatch vx_ev { %s => %s, _ => {} }\n%s    }' % (indent, sel, i2, fut, i2, pat, body if body.startswith('{') else '{ ' + body + '; }', indent)
+        arms.append(arm)
+    new = 'match vx_select(%d) {\n%s\n%s}' % (len(branches), '\n'.join(arms), indent)
+    fired['N25'] = fired.get('N25', 0) + 1
+    return n25_select(text[:mm.start()] + new + text[close_i + 1:], fired)
+
+
 def n20_anf_tail_chain(body, fired, qname):
     """N20 (opt-in, `//@ anf`): the tail expression `R.m1(..).m2(..)...mk(..)` of a function body becomes
     `let vx_c1 = R.m1(..); let vx_c2 = vx_c1.m2(..); ... let vx_ck = vx_c{k-1}.mk(..); vx_ck` (A-normal form: same calls, same order)."""
@@ -898,6 +990,7 @@ class Gen:
         body2 = normalise_code(body, fired)
         body2 = n6_closure_patterns(body2, fired)
         body2 = n9_step_by(body2, fired)
+        body2 = n25_select(body2, fired)
         if not decl_only:
             body2 = n10_string_plus_chain(body2, fired)
         for kind, args, slines, tl in sections:
